@@ -78,6 +78,10 @@ func Lookalikes(level int) []*tv.Package {
 	add("log/only-statement-of-loop", "func FN(n uint64) uint64 {\n\tfor i := uint64(0); i < n; i++ {\n\t\tlog.Printf(\"i %d\", i)\n\t}\n\treturn n\n}", "small:n")
 	add("log/last-statement", "func FN(p *Pt) {\n\tp.X = 1\n\tlog.Println(\"done\")\n}")
 	add("log/before-return-in-then", "func FN(x uint64) uint64 {\n\tif x > 1 {\n\t\tlog.Println(\"big\")\n\t\treturn 1\n\t}\n\treturn 2\n}")
+	// values that are merely *named* like the logging packages: their methods are ordinary calls
+	add("log/local-named-log", "type FNjournal struct {\n\ttotal uint64\n}\n\nfunc (j *FNjournal) Println(v uint64) {\n\tj.total = j.total + v\n}\n\nfunc FN(x uint64) uint64 {\n\tlog := &FNjournal{}\n\tlog.Println(x)\n\tlog.Println(4)\n\treturn log.total\n}")
+	add("log/local-named-fmt", "type FNsink struct {\n\tn uint64\n}\n\nfunc (s *FNsink) Printf(v uint64, w uint64) {\n\ts.n = s.n + v*2 + w\n}\n\nfunc FN(x uint64) uint64 {\n\tfmt := &FNsink{}\n\tfmt.Printf(x, 1)\n\treturn fmt.n\n}")
+	add("log/param-named-log", "type FNrec struct {\n\tlast uint64\n}\n\nfunc (r *FNrec) Print(v uint64) {\n\tr.last = v\n}\n\nfunc FNuse(log *FNrec, v uint64) {\n\tlog.Print(v)\n}\n\nfunc FN(x uint64) uint64 {\n\tr := &FNrec{}\n\tFNuse(r, x)\n\treturn r.last\n}")
 	add("log/two-in-a-row", "func FN(x uint64) uint64 {\n\tlog.Println(\"a\")\n\tlog.Println(\"b\")\n\treturn x\n}")
 	// shapes on which goose used to end with a Go panic instead of a located error
 	add("crash/five-results-define", "func FNfive() (uint64, uint64, uint64, uint64, uint64) {\n\treturn 1, 2, 3, 4, 5\n}\n\nfunc FN() uint64 {\n\ta, b, c, d, e := FNfive()\n\treturn a + b + c + d + e\n}")
